@@ -6,6 +6,6 @@ wt=/tmp/st_wt_$$
 git -C /repo worktree add -q --detach "$wt" HEAD || exit 2
 ( cd "$wt" && git apply "$p" ) || { echo "patch does not apply"; git -C /repo worktree remove --force "$wt"; exit 2; }
 for id in "$@"; do
-  (cd /verif && VERIF_EVIDENCE_DIR=/tmp/st_ev_$$ VERIF_REPO="$wt" ./check "$id" --tier quick 2>&1 | grep -v CostModel | grep -E "VIOLATION|KNOWN|MACHINERY|^\[C|api=" | cut -c1-300 | head -12)
+  (cd /verif && VERIF_EVIDENCE_DIR=/tmp/st_ev_$$ VERIF_REPO="$wt" ./check "$id" --tier quick 2>&1 | grep -v CostModel | grep -E "VIOLATION|KNOWN|MACHINERY|^\[C|api=" | cut -c1-300 | head -40)
 done
 git -C /repo worktree remove --force "$wt"; rm -rf /tmp/st_ev_$$
